@@ -36,18 +36,21 @@ type c11Row struct {
 }
 
 type c11State struct {
-	c        *Ctx
-	t        *tabular.ATable
-	byErr    map[error]*c11Err
-	tableExp []*c11Err
-	foreign  int // library-made errors expected in the table's list
-	held     []*c11Row
-	rows     []*c11Row // attached (incl. separators)
-	dest     *c11Row   // nil = table; where errors raised by callbacks right now must end up
-	nErr     int
-	nSrc     int
-	log      []string
-	cbEvents int
+	c         *Ctx
+	t         *tabular.ATable
+	byErr     map[error]*c11Err
+	tableExp  []*c11Err
+	t2        *tabular.ATable // a second table fed with t.Errors()
+	t2Exp     []*c11Err
+	t2Foreign int
+	foreign   int // library-made errors expected in the table's list
+	held      []*c11Row
+	rows      []*c11Row // attached (incl. separators)
+	dest      *c11Row   // nil = table; where errors raised by callbacks right now must end up
+	nErr      int
+	nSrc      int
+	log       []string
+	cbEvents  int
 }
 
 func (s *c11State) newSrc() int { s.nSrc++; return s.nSrc }
@@ -137,6 +140,47 @@ func (s *c11State) verify(list []error, exp []*c11Err, foreign int, who string) 
 	return "", ""
 }
 
+// verifyMulti is verify for a list into which the same error may legitimately have been
+// copied several times (a summary table): the multiset must match and nil entries are forbidden.
+func (s *c11State) verifyMulti(list []error, exp []*c11Err, foreign int, who string) (string, string) {
+	if len(exp)+foreign == 0 {
+		if list != nil {
+			return "Errors-not-nil-when-empty", fmt.Sprintf("%s.Errors() is a non-nil list of length %d although nothing was added", who, len(list))
+		}
+		return "", ""
+	}
+	want := map[*c11Err]int{}
+	for _, e := range exp {
+		want[e]++
+	}
+	got := map[*c11Err]int{}
+	nForeign := 0
+	for i, e := range list {
+		if e == nil {
+			return "nil-entry", fmt.Sprintf("%s.Errors()[%d] is nil", who, i)
+		}
+		if ce := s.byErr[e]; ce != nil {
+			got[ce]++
+		} else {
+			nForeign++
+		}
+	}
+	for e, n := range want {
+		if got[e] != n {
+			return "errors-lost-or-duplicated", fmt.Sprintf("%s.Errors() holds %s %d times, expected %d", who, e.id, got[e], n)
+		}
+	}
+	for e, n := range got {
+		if want[e] == 0 {
+			return "error-misrouted", fmt.Sprintf("%s.Errors() holds %s (%d times), which was never added to it", who, e.id, n)
+		}
+	}
+	if nForeign != foreign {
+		return "library-error-count", fmt.Sprintf("%s.Errors() holds %d library-made errors, expected %d", who, nForeign, foreign)
+	}
+	return "", ""
+}
+
 func firstWhat(exp []*c11Err) string {
 	if len(exp) == 0 {
 		return "library-error"
@@ -155,6 +199,11 @@ func (s *c11State) check() (string, string) {
 	s.c.Rec.Count("state_comparisons", 1)
 	if k, m := s.verify(s.t.Errors(), s.tableExp, s.foreign, "table"); k != "" {
 		return k, m
+	}
+	if s.t2 != nil {
+		if k, m := s.verifyMulti(s.t2.Errors(), s.t2Exp, s.t2Foreign, "summary table (fed by summary.AddErrorList(t.Errors()))"); k != "" {
+			return "summary-table:" + k, m
+		}
 	}
 	for i, r := range s.held {
 		if k, m := s.verify(r.h.Errors(), r.exp, r.foreign, fmt.Sprintf("unattached row #%d", i)); k != "" {
@@ -186,7 +235,24 @@ func (s *c11State) step(r *gen.R) {
 	say := func(f string, a ...interface{}) { s.log = append(s.log, fmt.Sprintf(f, a...)) }
 	period := func() int { return r.Range(1, 3) }
 	s.dest = nil
-	switch r.Intn(22) {
+	switch r.Intn(25) {
+	case 22, 23:
+		// a second ("summary") table collects this table's errors so far; both go on afterwards
+		if s.t2 == nil {
+			s.t2 = tabular.New()
+		}
+		say("summary.AddErrorList(t.Errors())  [%d errors]", len(t.Errors()))
+		s.t2.AddErrorList(t.Errors())
+		s.t2Exp = append(s.t2Exp, s.tableExp...)
+		s.t2Foreign += s.foreign
+	case 24:
+		if s.t2 == nil {
+			s.t2 = tabular.New()
+		}
+		e := s.raise(-1, "summary.AddError")
+		say("summary.AddError(%s)", e.id)
+		s.t2.AddError(e.err)
+		s.t2Exp = append(s.t2Exp, e)
 	case 20, 21:
 		if len(s.held) == 0 {
 			return
@@ -218,9 +284,13 @@ func (s *c11State) step(r *gen.R) {
 		if n == 0 && r.Bool() {
 			list = nil
 		}
-		say("t.AddErrorList([%s])", desc)
+		say("t.AddErrorList([%s]); the caller then overwrites and extends its list", desc)
 		t.AddErrorList(list)
 		t.AddError(nil)
+		for i := range list {
+			list[i] = c11Scribble
+		}
+		list = append(list, c11Scribble)
 	case 2:
 		h := tabular.NewRow()
 		s.held = append(s.held, &c11Row{h: h, src: s.newSrc()})
@@ -421,7 +491,9 @@ func c11History(c *Ctx, i int, r *gen.R) {
 
 // ---- bare containers, exhaustive
 
-var c11ContOps = []string{"AddError(nil)", "AddError(e)", "AddErrorList(nil)", "AddErrorList([])", "AddErrorList([nil])", "AddErrorList([e])", "AddErrorList([e,nil,e])", "AddErrorList([nil,nil,e])"}
+var c11ContOps = []string{"AddError(nil)", "AddError(e)", "AddErrorList(nil)", "AddErrorList([])", "AddErrorList([nil])", "AddErrorList([e]) then caller overwrites its list", "AddErrorList([e,nil,e]) then caller overwrites its list", "AddErrorList([nil,nil,e])", "AddErrorList([e,e]) with spare capacity, caller appends to its list afterwards", "B.AddErrorList(A.Errors())", "B.AddError(e)"}
+
+var c11Scribble = errors.New("the caller's own later use of its list")
 
 func c11Containers(c *Ctx, i int, r *gen.R) {
 	nb := len(c11ContOps)
@@ -437,7 +509,11 @@ func c11Containers(c *Ctx, i int, r *gen.R) {
 	case 2:
 		ec, kindName = nil, "(*ErrorContainer)(nil)"
 	}
-	var exp []error
+	var exp, expB []error
+	second := tabular.NewErrorContainer()
+	if len(seq) > 0 && seq[0]%2 == 1 {
+		second = &tabular.ErrorContainer{}
+	}
 	names := make([]string, len(seq))
 	n := 0
 	mk := func() error {
@@ -466,34 +542,61 @@ func c11Containers(c *Ctx, i int, r *gen.R) {
 		case 4:
 			ec.AddErrorList([]error{nil})
 		case 5:
-			ec.AddErrorList([]error{mk()})
+			l := []error{mk()}
+			ec.AddErrorList(l)
+			l[0] = c11Scribble
 		case 6:
 			a, b := mk(), mk()
-			ec.AddErrorList([]error{a, nil, b})
+			l := []error{a, nil, b}
+			ec.AddErrorList(l)
+			l[0], l[1], l[2] = c11Scribble, c11Scribble, c11Scribble
 		case 7:
 			ec.AddErrorList([]error{nil, nil, mk()})
+		case 8:
+			l := make([]error, 0, 8)
+			l = append(l, mk(), mk())
+			ec.AddErrorList(l)
+			l = append(l, c11Scribble, c11Scribble)
+			l[0] = c11Scribble
+		case 9:
+			second.AddErrorList(ec.Errors())
+			expB = append(expB, exp...)
+		case 10:
+			n++
+			e := errors.New(fmt.Sprintf("b%d", n))
+			second.AddError(e)
+			expB = append(expB, e)
 		}
-		got := ec.Errors()
-		c.Rec.Count("container_comparisons", 1)
-		bad := ""
-		if len(exp) == 0 {
-			if got != nil {
-				bad = fmt.Sprintf("Errors() is non-nil (len %d) although nothing non-nil was added", len(got))
-			}
-		} else if len(got) != len(exp) {
-			bad = fmt.Sprintf("Errors() has %d entries %v, expected the %d non-nil inputs in order", len(got), got, len(exp))
-		} else {
-			for j := range got {
-				if got[j] != exp[j] {
-					bad = fmt.Sprintf("Errors()[%d]=%v, expected %v", j, got[j], exp[j])
-					break
+		c.Rec.Count("container_comparisons", 2)
+		for which, pair := range []struct {
+			got, exp []error
+		}{{ec.Errors(), exp}, {second.Errors(), expB}} {
+			got, exp := pair.got, pair.exp
+			bad := ""
+			if len(exp) == 0 {
+				if got != nil {
+					bad = fmt.Sprintf("Errors() is non-nil (len %d) although nothing non-nil was added", len(got))
+				}
+			} else if len(got) != len(exp) {
+				bad = fmt.Sprintf("Errors() has %d entries %v, expected the %d non-nil inputs in order", len(got), got, len(exp))
+			} else {
+				for j := range got {
+					if got[j] != exp[j] {
+						bad = fmt.Sprintf("Errors()[%d]=%v, expected %v", j, got[j], exp[j])
+						break
+					}
 				}
 			}
-		}
-		if bad != "" {
-			key := "container:" + []string{"constructed", "zero-value", "nil"}[kind]
-			c.Rec.Violate(key, fmt.Sprintf("%s after %v: %s", kindName, names[:k+1], bad), desc)
-			return
+			if bad != "" {
+				key := "container:" + []string{"constructed", "zero-value", "nil"}[kind]
+				who := kindName
+				if which == 1 {
+					key += ":second-container-fed-from-first"
+					who = "second container B (fed by B.AddErrorList(A.Errors()))"
+				}
+				c.Rec.Violate(key, fmt.Sprintf("A = %s; after %v: %s: %s", kindName, names[:k+1], who, bad), desc)
+				return
+			}
 		}
 	}
 	if len(seq) == 4 && i%997 == 0 && c.Rec.WantSample() {
@@ -506,8 +609,8 @@ func init() {
 	register(&Prop{
 		ID:    "C11",
 		Level: "exploration",
-		Rule: "phase 0 (exhaustive): every sequence of up to L (4 quick, 5 thorough) container operations over {AddError(nil|e), AddErrorList(nil|[]|[nil]|[e]|[e,nil,e]|[nil,nil,e])} on a constructed, a zero-value and a nil container, Errors() compared with the non-nil inputs in order after each operation; " +
-			"phase 1: random table histories of 5-40 steps mixing direct errors on the table / unattached rows / attached rows / separator rows, AddErrorList with nil entries, cells added to separator rows, failing callbacks (fresh unique error per failing invocation) registered on table, columns, unattached rows, attached rows and cells at all times and targets, row attachment, and render passes (InvokeRenderCallbacks, csv, text). " +
+		Rule: "phase 0 (exhaustive): every sequence of up to L (4 quick, 5 thorough) container operations over {AddError(nil|e), AddErrorList(nil|[]|[nil]|[e]|[e,nil,e]|[nil,nil,e]|[e,e] with spare capacity) with the caller overwriting / appending to its own list afterwards, B.AddErrorList(A.Errors()), B.AddError(e)} on a constructed, a zero-value and a nil container A and a second container B, Errors() of both compared with the non-nil inputs in order after each operation; " +
+			"phase 1: random table histories of 5-40 steps mixing direct errors on the table / unattached rows / attached rows / separator rows, AddErrorList with nil entries, cells added to separator rows, a second (summary) table fed with t.Errors() while both tables go on collecting, the caller overwriting its list after AddErrorList, failing callbacks (fresh unique error per failing invocation) registered on table, columns, unattached rows, attached rows and cells at all times and targets, row attachment, and render passes (InvokeRenderCallbacks, csv, text). " +
 			"Distinct = distinct histories; non-trivial = at least one error was raised.",
 		Assumptions: []string{
 			"relative order of errors from different sources is not asserted; 'same source' = same row for direct errors, same registration for callback errors",
